@@ -144,7 +144,8 @@ def _has_either_edge(graph: NxMixedGraph, u: Variable, v: Variable) -> bool:
 
 
 def _only_directed_edge(graph: NxMixedGraph, u: Variable, v: Variable) -> bool:
-    return graph.directed.has_edge(u, v) and not graph.undirected.has_edge(u, v)
+    # a parallel bidirected edge does not remove the directed edge
+    return cast(bool, graph.directed.has_edge(u, v))
 
 
 def is_collider(
